@@ -851,7 +851,7 @@ var _ = lexer.NewBuilder
 func init() {
 	core.Register(&core.PropSpec{
 		ID: "C16", Level: "model_checking",
-		Rule:     "context stack vs reference nesting model: every chain of <= d nesting constructors (d=3 quick; 4 full alphabet + 5 reduced alphabet thorough) over {block, if/else/while/for block, function declaration, function expression as call argument / array element / object value / let initialiser / return value / IIFE / inside if-, while- and for-headers / operand / index} around 3 leaf bodies, with a sibling statement before and after the nested construct at every level, plus the statement families (brace-less bodies); each parsed (space layout and LF-in-every-gap layout) with one statement and one expression interceptor that record IsInFunction(), CurrentContext() and the current token; oracle per invocation: the token's nesting path recorded by the harness unparser (function body braces = function body, not an extra block) gives IsInFunction <=> path contains a function and CurrentContext = innermost element. Final-state clause: ALL token sequences <= n (4 quick, 5 thorough) x modes, all byte strings <= 4, every truncation of every nested program at a token boundary and every single-token deletion: after ParseProgram CurrentContext()=global and IsInFunction()=false, with and without interceptors. states = distinct context stacks observed at an invocation; transitions = interceptor invocations checked Added: every ordered pair of nesting constructors x leaf bodies side by side (top level and inside a function); chains of one constructor (and alternating pairs) nested 5, 9, 17, 33, 65 (129, 257 thorough) deep; one constructor around (and innermost inside) 8, 16, 32, 64 (128, 256) levels of another constructor, for every ordered pair; sub-parse clause: every program again with a statement interceptor that parses a nested snippet with a SECOND parser of the same builder before answering. Installation sets (round 11): every program again on builders that carry only the expression interceptor, only the statement interceptor, and both between pass-through interceptors installed through Install. Plugin construct (round 12): every program again behind a plugin statement that reads a parameter list with the public ParseFunctionParameters and an expression body; the plugin language: 400 programs with LOOP blocks (ParseBlockStatement called by the plugin) and UNLESS bodies (ParseStatement), two layouts, all query variants.",
+		Rule:     "context stack vs reference nesting model: every chain of <= d nesting constructors (d=3 quick; 4 full alphabet + 5 reduced alphabet thorough) over {block, if/else/while/for block, function declaration, function expression as call argument / array element / object value / let initialiser / return value / IIFE / inside if-, while- and for-headers / operand / index} around 3 leaf bodies, with a sibling statement before and after the nested construct at every level, plus the statement families (brace-less bodies); each parsed (space layout and LF-in-every-gap layout) with one statement and one expression interceptor that record IsInFunction(), CurrentContext() and the current token; oracle per invocation: the token's nesting path recorded by the harness unparser (function body braces = function body, not an extra block) gives IsInFunction <=> path contains a function and CurrentContext = innermost element. Final-state clause: ALL token sequences <= n (4 quick, 5 thorough) x modes, all byte strings <= 4, every truncation of every nested program at a token boundary and every single-token deletion: after ParseProgram CurrentContext()=global and IsInFunction()=false, with and without interceptors. states = distinct context stacks observed at an invocation; transitions = interceptor invocations checked Added: every ordered pair of nesting constructors x leaf bodies side by side (top level and inside a function); chains of one constructor (and alternating pairs) nested 5, 9, 17, 33, 65 (129, 257 thorough) deep; one constructor around (and innermost inside) 8, 16, 32, 64 (128, 256) levels of another constructor, for every ordered pair; sub-parse clause: every program again with a statement interceptor that parses a nested snippet with a SECOND parser of the same builder before answering. Installation sets (round 11): every program again on builders that carry only the expression interceptor, only the statement interceptor, and both between pass-through interceptors installed through Install. Plugin construct (round 12): every program again behind a plugin statement that reads a parameter list with the public ParseFunctionParameters and an expression body; the plugin language: 400 programs with LOOP blocks (ParseBlockStatement called by the plugin) and UNLESS bodies (ParseStatement), two layouts, all query variants. Added (round 13): brace-less chains - every chain of <= 3 (4) brace-less while / for / if-then / if-else / then-with-else bodies around an inner statement that asks, at top level, in a block and in a function body.",
 		Assume:   []string{"nesting paths come from the harness unparser; its statement structure is cross-checked against goja by C02"},
 		QuickSec: 300, ThorSec: 3600, Run: c16Run, Replay: c16Replay,
 		Evals: "programs_parsed", Nontriv: "programs_with_invocations", States: "states", Trans: "interceptor_invocations",
